@@ -10,6 +10,9 @@ import (
 
 func (r *Repo) Store(_ context.Context, tx model.Transaction) error {
 	verifhook.Point("txrepo.store")
+	r.m.Lock()
+	defer r.m.Unlock()
+
 	_, ok := r.storage.Load(tx.Id)
 	if ok {
 		return fs_db.ErrTxAlreadyExists
